@@ -193,8 +193,12 @@ def join_logical_state(ctx, rule):
                ctx.loc(f))
 
     keys = [j_name, r_name + '[0]', e_name + '[0]', t_name, in_name]
-    dom_j = ('all', 'one', 1, 2, 3)
-    rng = (0, 1, 2, 3)
+    # quick: counts 0..3; thorough: 0..6 (the comparisons have unit
+    # coefficients, so nothing new is expected - the deeper table is there to
+    # show it, not to assume it)
+    top = 6 if ctx.tier == 'thorough' else 3
+    dom_j = ('all', 'one') + tuple(range(1, top + 1))
+    rng = tuple(range(0, top + 1))
     init = set()
     for j, r_, e_, t in itertools.product(dom_j, rng, rng, rng):
         if r_ + e_ > t:
